@@ -183,10 +183,8 @@ def optionalChunk (rs : List Res) (id : String) (dflt : J) (dec : Bytes → R J)
     dec c.data
   else .ok dflt
 
-/-- everything after the memory map has been read -/
-def assemble (D : Decoders) (o : Order) (rs : List Res) : R DirectorFile := do
-  let kc ← (← locateChunk rs "KEY*").chunk
-  let key ← D.key o kc.data
+/-- everything after the key table has been decoded (the only step that depends on the container's byte order) -/
+def assembleK (D : Decoders) (rs : List Res) (key : KeyData) : R DirectorFile := do
   let vc ← (← locateChunk rs "VWCF").chunk
   let info ← D.vwcf vc.data
   let cc ← (← locateChunk rs "CAS*").chunk
@@ -202,6 +200,12 @@ def assemble (D : Decoders) (o : Order) (rs : List Res) : R DirectorFile := do
   let fontmap ← optionalChunk rs "Fmap" (.arr []) D.fmap
   let cast ← castLoop D rs key fontmap cas []
   .ok ⟨info, cast, lingo, js, markers, score, fontmap⟩
+
+/-- everything after the memory map has been read -/
+def assemble (D : Decoders) (o : Order) (rs : List Res) : R DirectorFile := do
+  let kc ← (← locateChunk rs "KEY*").chunk
+  let key ← D.key o kc.data
+  assembleK D rs key
 
 /-- resources of a parsed file: memory-map entry i -> `get_by_offset(entry.offset - rifx_offset)` -/
 def resOfFile (chunks : List Chunk) (P : Nat) (es : List MmapEntry) : List Res :=
